@@ -99,17 +99,17 @@ theorem drain_split (tail : List Anchor) (A : Anchor) : ∀ (fuel : Nat) (pre : 
     (as' : List Anchor), n ≤ idx → countSum pre ≤ idx → idx < countSum pre + A.count →
     drainAnchors fuel (pre ++ A :: tail) n = some as' →
     ∃ pre' A', dropZeroAnchors as' = pre' ++ A' :: tail ∧ countSum pre' ≤ idx - n ∧
-      idx - n < countSum pre' + A'.count
+      idx - n < countSum pre' + A'.count ∧ A'.chunk = A.chunk
   | fuel, pre, 0, idx, as', _, h2, h3, hd => by
     rw [drainAnchors_zeroO] at hd; cases hd
     obtain ⟨p', e1, e2⟩ := dropZero_keeps tail A (by omega) pre
-    exact ⟨p', A, e1, by omega, by omega⟩
+    exact ⟨p', A, e1, by omega, by omega, rfl⟩
   | 0, pre, n + 1, idx, as', _, _, _, hd => by simp [drainAnchors] at hd
   | fuel + 1, [], n + 1, idx, as', h1, h2, h3, hd => by
     simp only [List.nil_append, countSum_nil, Nat.zero_add] at hd h3
     rw [drainAnchors_consO, if_neg (by omega)] at hd
     cases hd
-    refine ⟨[], { A with count := A.count - (n + 1) }, ?_, by simp, by simp; omega⟩
+    refine ⟨[], { A with count := A.count - (n + 1) }, ?_, by simp, by simp; omega, rfl⟩
     have : ¬ A.count - (n + 1) = 0 := by omega
     simp [dropZeroAnchors, this]
   | fuel + 1, a :: p, n + 1, idx, as', h1, h2, h3, hd => by
@@ -117,12 +117,12 @@ theorem drain_split (tail : List Anchor) (A : Anchor) : ∀ (fuel : Nat) (pre : 
     rw [drainAnchors_consO] at hd
     by_cases hle : a.count ≤ n + 1
     · rw [if_pos hle] at hd
-      obtain ⟨pre', A', e1, e2, e3⟩ := drain_split tail A fuel p (n + 1 - a.count) (idx - a.count) as'
+      obtain ⟨pre', A', e1, e2, e3, e4⟩ := drain_split tail A fuel p (n + 1 - a.count) (idx - a.count) as'
         (by omega) (by omega) (by omega) hd
-      exact ⟨pre', A', e1, by omega, by omega⟩
+      exact ⟨pre', A', e1, by omega, by omega, e4⟩
     · rw [if_neg hle] at hd
       cases hd
-      refine ⟨{ a with count := a.count - (n + 1) } :: p, A, ?_, by simp; omega, by simp; omega⟩
+      refine ⟨{ a with count := a.count - (n + 1) } :: p, A, ?_, by simp; omega, by simp; omega, rfl⟩
       have : ¬ a.count - (n + 1) = 0 := by omega
       simp [dropZeroAnchors, this]
 
@@ -330,7 +330,7 @@ theorem FPv.copied {T : Nat} {v : Iov} (h : FPv T v) (s : Slice) (chunk ls : Nat
       exact optimize_split ho hc1 (by simp; omega) (copyAnchors_split h4 chunk)
 
 theorem FPv.pushBorrowedSlice {T : Nat} {v v' : Iov} {s : Slice} (h : FPv T v) (hp : v.pushBorrowedSlice s = some v') :
-    FPv (T + 1) v' := by
+    FPv T v' := by
   obtain ⟨_, as, a, hcase, ho⟩ := pushBorrowedSlice_spec hp
   obtain ⟨hc2, hb, hcs⟩ := pushBorrowedSlice_count hp h.count
   refine ⟨hc2, (pushBorrowedSlice_headPos h.headPos hp).1, ?_⟩
@@ -348,7 +348,7 @@ theorem FPv.pushBorrowedSlice {T : Nat} {v v' : Iov} {s : Slice} (h : FPv T v) (
       have hsp : Split (as ++ [{ a with count := a.count + 1 }]) (e.2.sliceIndex - v.consumedSlices) T := by
         rw [hsnoc] at h4; exact h4.inc_last 1
       have hsp2 := optimize_split ho hc1 (by simp; omega) hsp
-      refine Or.inr ⟨e, by rw [hb]; exact h1, by rw [hcs]; exact h2, ?_, by rw [hcs]; exact hsp2.mono (by omega)⟩
+      refine Or.inr ⟨e, by rw [hb]; exact h1, by rw [hcs]; exact h2, ?_, by rw [hcs]; exact hsp2⟩
       rw [hcs, ← hc2]
       obtain ⟨pre, A, tail, q1, q2, q3, _⟩ := hsp2
       rw [q1]; simp only [countSum_append, countSum_cons]; omega
@@ -374,7 +374,7 @@ theorem FPv.consumeSlices {T : Nat} {v v' : Iov} {count k n : Nat} (h : FPv T v)
       omega
     obtain ⟨pre, A, tail, q1, q2, q3, q4⟩ := h4
     rw [q1] at hd
-    obtain ⟨pre', A', r1, r2, r3⟩ := drain_split tail A _ pre k _ as1 (by omega) q2 q3 hd
+    obtain ⟨pre', A', r1, r2, r3, _⟩ := drain_split tail A _ pre k _ as1 (by omega) q2 q3 hd
     refine Or.inr ⟨e, h1, by simp only; omega, ?_, ?_⟩
     · simp only [List.length_drop]; omega
     · simp only
@@ -567,7 +567,7 @@ theorem FPB.pushBorrowed {i T : Nat} {B : List (Nat × BackrefInfo)} {w w' : Wor
   obtain ⟨v0, hv0, ⟨_, rfl⟩ | ⟨_, v', hpb, rfl⟩⟩ := pushBorrowed_spec hp
   · exact ⟨hs, v, hv, hf.mono (by omega), hb⟩
   · rw [hv] at hv0; cases hv0
-    refine ⟨hs.setIov _, v', by simp, hf.pushBorrowedSlice hpb, ?_⟩
+    refine ⟨hs.setIov _, v', by simp, (hf.pushBorrowedSlice hpb).mono (by omega), ?_⟩
     rw [(pushBorrowedSlice_count hpb hf.count).2.1, hb]
 
 theorem FPB.push {i T : Nat} {B : List (Nat × BackrefInfo)} {w w' : World} {s : Slice} (h : FPB i T B w)
